@@ -129,6 +129,17 @@ func c19gen(g *gen, tier string, w *bufio.Writer) {
 		fmt.Fprintf(w, "get %s\n", strings.Join(vs, ","))
 	}
 	fmt.Fprintf(w, "get -\n")
+	for i := 0; i < n/8; i++ {
+		var groups []string
+		for k, ng := 0, 2+g.intn(3); k < ng; k++ {
+			var vs []string
+			for j, nv := 0, 1+g.intn(5); j < nv; j++ {
+				vs = append(vs, strconv.FormatInt(int64(g.intn(100000))-int64(g.intn(3))*40000, 10))
+			}
+			groups = append(groups, strings.Join(vs, ","))
+		}
+		fmt.Fprintf(w, "getn %s\n", strings.Join(groups, "|"))
+	}
 	// counters and the query log around real query streams (every response class; repeated queries
 	// so that cache hits occur)
 	files := 12
@@ -207,6 +218,33 @@ func c19run(line string) (string, string) {
 		return strings.Join(res, ";"), "-"
 	case "wconc":
 		return c19runConcurrent(f[1:])
+	case "getn":
+		// several sampled metrics in one Stats: every metric's min/max/avg is computed from its own
+		// samples, whatever else is exported at the same time (repeated: map iteration order varies)
+		st := metrics.NewStats()
+		groups := strings.Split(f[1], "|")
+		for gi, grp := range groups {
+			for _, s := range strings.Split(grp, ",") {
+				v, _ := strconv.ParseInt(s, 10, 64)
+				st.AddSample(fmt.Sprintf("m%d", gi), v)
+			}
+		}
+		first := ""
+		for rep := 0; rep < 12; rep++ {
+			got := st.Get()
+			var parts []string
+			for gi := range groups {
+				k := fmt.Sprintf("m%d", gi)
+				parts = append(parts, fmt.Sprintf("%d,%d,%d", got[k+".min"], got[k+".max"], got[k+".avg"]))
+			}
+			cur := strings.Join(parts, "|")
+			if rep == 0 {
+				first = cur
+			} else if cur != first {
+				return first + "!=" + cur, "FAIL:export-differs-between-two-Get-calls"
+			}
+		}
+		return first, "-"
 	case "get":
 		st := metrics.NewStats()
 		if f[1] != "-" {
